@@ -57,8 +57,8 @@ def lake_build(targets=("Mathy", "driver"), timeout=3000):
 class Driver:
     """The compiled model driver; requests are batched."""
 
-    def __init__(self):
-        exe = os.path.join(LEAN_DIR, ".lake", "build", "bin", "driver")
+    def __init__(self, name="driver"):
+        exe = os.path.join(LEAN_DIR, ".lake", "build", "bin", name)
         if not os.path.exists(exe):
             raise RuntimeError("model driver is not built: " + exe)
         self.exe = exe
@@ -96,14 +96,41 @@ def to_frac(v):
     return Fraction(repr(f))
 
 
-def close(a, b, rel=1e-9):
-    """Equality of constants up to the floating-point rounding of folded constants."""
+def close(a, b, rel=1e-9, floor=1.0):
+    """Equality of constants up to the floating-point rounding of folded constants: relative `rel`, and
+    absolute `rel * floor` near zero (floor = the magnitude of the quantities the value was computed
+    from, 1.0 unless the caller knows they are all smaller)."""
     if a is None or b is None:
         return a is None and b is None
     if a == b:
         return True
     fa, fb = float(a), float(b)
-    return abs(fa - fb) <= rel * max(1.0, abs(fa), abs(fb))
+    return abs(fa - fb) <= rel * max(floor, abs(fa), abs(fb))
+
+
+def value_scale(t, env):
+    """largest magnitude among the constants of the tree and the variable values: rounding errors of
+    folded constants are relative to it (capped at 1.0, the default floor of `close`)"""
+    m = 0.0
+    stack = [t]
+    while stack:
+        x = stack.pop()
+        if x[0] == "C":
+            try:
+                m = max(m, abs(float(x[2])))
+            except (TypeError, ValueError, OverflowError):
+                return 1.0
+        elif x[0] == "V":
+            v = env.get(x[2])
+            try:
+                m = max(m, abs(float(v)))
+            except (TypeError, ValueError, OverflowError):
+                return 1.0
+        else:
+            stack += [c for c in x[3:] if isinstance(c, tuple)]
+        if m >= 1.0:
+            return 1.0
+    return max(m, 1e-300)
 
 
 # --------------------------------------------------------------------------- trees
@@ -471,7 +498,7 @@ def refines(before, after, envs=None):
             if is_equation:
                 ok = isinstance(b, Fraction)
             else:
-                ok = isinstance(b, Fraction) and close(a, b)
+                ok = isinstance(b, Fraction) and close(a, b, floor=value_scale(before, env))
             if not ok:
                 return {"env": envs_s, "before": str(a), "after": str(b)}
         elif a == "unequal":
